@@ -4,8 +4,8 @@
 package harness
 
 import (
-	ethkittypes "github.com/meshplus/eth-kit/types"
 	"fmt"
+	ethkittypes "github.com/meshplus/eth-kit/types"
 	"io/ioutil"
 	"math/big"
 	"os"
